@@ -251,6 +251,7 @@ package larking
 //@   ensures [progress] n >= 0 && l.pos >= old(l.pos) && (n == 0 <==> l.pos == old(l.pos))
 //@   ensures [valid-run] ValidRun(l.input, old(l.pos), l.pos, isValid)
 //@   ensures [maximal] l.pos < len(l.input) && l.input[l.pos] < 128 ==> !apply(isValid, l.input[l.pos])
+//@   ensures [nonempty] old(l.pos) < len(l.input) && l.input[old(l.pos)] < 128 && apply(isValid, l.input[old(l.pos)]) ==> n > 0
 //@   loop 1 invariant LexInv(l) && i >= 0 && i <= l.pos - old(l.pos) && (i == 0 <==> l.pos == old(l.pos))
 //@   loop 1 invariant ValidRun(l.input, old(l.pos), l.pos, isValid)
 //@   loop 1 decreases len(l.input) - l.pos
@@ -420,3 +421,75 @@ package larking
 //@   requires p != nil && TrieWf()
 //@   modifies F$lexer, E$token, E$param
 //@   ensures [found] err == nil ==> m != nil && len(m.vars) == gf(p, "depth") + len(ps)
+
+// ---------------------------------------------------------------------------
+// Template lexer (registration). Safety, termination (mutual recursion
+// lexSegments -> lexSegment -> lexVariable -> lexSegments with the measure
+// 3*(len(input)-pos)+rank) and acceptance of LITERAL segments.
+//@ spec LexRest(l) = len(l.input) - l.pos
+
+//@ func lexIdent serves C16 C09
+//@   returns (err)
+//@   requires LexInv(l)
+//@   modifies F$lexer.pos, F$lexer.width, F$lexer.len, F$lexer.start, E$token
+//@   ensures [inv] LexInv(l) && l.pos >= old(l.pos)
+//@   ensures [token] err == nil ==> l.len == old(l.len) + 1 && l.start == l.pos && l.pos > old(l.pos)
+
+//@ func lexLiteral serves C16 C09
+//@   returns (err)
+//@   requires LexInv(l)
+//@   modifies F$lexer.pos, F$lexer.width, F$lexer.len, F$lexer.start, E$token
+//@   ensures [inv] LexInv(l) && l.pos >= old(l.pos)
+//@   ensures [token] err == nil ==> l.len == old(l.len) + 1 && l.start == l.pos && l.pos > old(l.pos)
+//@   ensures [accepts] old(l.pos) < len(l.input) && l.input[old(l.pos)] < 128 && IsLiteralR(l.input[old(l.pos)]) && old(l.len) < 64 ==> err == nil
+
+//@ func lexFieldPath serves C16 C09
+//@   returns (err)
+//@   requires LexInv(l)
+//@   modifies F$lexer.pos, F$lexer.width, F$lexer.len, F$lexer.start, E$token
+//@   ensures [inv] LexInv(l) && l.pos >= old(l.pos)
+//@   ensures [progress] err == nil ==> l.pos > old(l.pos)
+//@   loop 1 invariant LexInv(l) && l.pos > old(l.pos)
+//@   loop 1 decreases LexRest(l)
+
+//@ func lexVerb serves C16 C09
+//@   returns (err)
+//@   requires LexInv(l)
+//@   modifies F$lexer.pos, F$lexer.width, F$lexer.len, F$lexer.start, E$token
+//@   ensures [inv] LexInv(l)
+
+//@ func lexVariable serves C16 C09
+//@   returns (err)
+//@   requires LexInv(l)
+//@   modifies F$lexer.pos, F$lexer.width, F$lexer.len, F$lexer.start, E$token
+//@   decreases 3 * LexRest(l)
+//@   ensures [inv] LexInv(l) && l.pos >= old(l.pos)
+//@   ensures [progress] err == nil ==> l.pos > old(l.pos) && l.start == l.pos
+
+//@ func lexSegment serves C16 C09
+//@   returns (err)
+//@   requires LexInv(l) && l.start == l.pos
+//@   modifies F$lexer.pos, F$lexer.width, F$lexer.len, F$lexer.start, E$token
+//@   decreases 3 * LexRest(l) + 1
+//@   ensures [inv] LexInv(l) && l.pos >= old(l.pos)
+//@   ensures [progress] err == nil ==> l.pos > old(l.pos) && l.start == l.pos
+//@   ensures [literal-accepted C16] old(l.pos) < len(l.input) && ((65 <= l.input[old(l.pos)] && l.input[old(l.pos)] <= 90) || (97 <= l.input[old(l.pos)] && l.input[old(l.pos)] <= 122))
+//@        && old(l.len) < 64 ==> err == nil
+//@   oracle !(l_old.pos < len(l_old.input) && verifASCIILetter(l_old.input[l_old.pos]) && l_old.len < 64) || err == nil
+
+//@ func lexSegments serves C16 C09
+//@   returns (err)
+//@   requires LexInv(l) && l.start == l.pos
+//@   modifies F$lexer.pos, F$lexer.width, F$lexer.len, F$lexer.start, E$token
+//@   decreases 3 * LexRest(l) + 2
+//@   ensures [inv] LexInv(l) && l.pos >= old(l.pos)
+//@   ensures [progress] err == nil ==> l.pos > old(l.pos)
+//@   loop 1 invariant LexInv(l) && l.start == l.pos && l.pos >= old(l.pos)
+//@   loop 1 decreases LexRest(l)
+
+//@ func lexTemplate serves C16 C09
+//@   returns (err)
+//@   requires LexInv(l) && l.start == 0 && l.pos == 0 && l.len == 0
+//@   modifies F$lexer.pos, F$lexer.width, F$lexer.len, F$lexer.start, E$token
+//@   deadcode "return err #1"
+//@   ensures [inv] LexInv(l)
